@@ -34,6 +34,7 @@ type c08Case struct {
 	ExcludeWO     bool     `json:"excludeWO"`
 	Multi         bool     `json:"multi"`
 	Req           string   `json:"req"`
+	Wrap          string   `json:"wrap"`
 }
 
 func c08Run(c *Case) []any {
@@ -86,6 +87,20 @@ func c08Run(c *Case) []any {
 		}
 		bodySchema := map[string]any{"type": "object", "required": reqList, "properties": map[string]any{
 			"q": intS, "r": map[string]any{"type": "string", "readOnly": true}, "w": map[string]any{"type": "string", "writeOnly": true}}}
+		switch inner := bodySchema; tc.Wrap {
+		case "anyOf":
+			bodySchema = map[string]any{"anyOf": []any{map[string]any{"type": "boolean"}, inner}}
+		case "oneOf":
+			bodySchema = map[string]any{"oneOf": []any{inner, map[string]any{"type": "boolean"}}}
+		case "allOf":
+			bodySchema = map[string]any{"allOf": []any{map[string]any{"type": "object"}, inner}}
+		case "items":
+			bodySchema = map[string]any{"type": "array", "items": inner}
+		case "itemsAnyOf":
+			bodySchema = map[string]any{"type": "array", "items": map[string]any{"anyOf": []any{inner}}}
+		case "prop":
+			bodySchema = map[string]any{"type": "object", "properties": map[string]any{"in": inner}}
+		}
 		textSchema := map[string]any{"type": "string", "minLength": 2}
 		switch tc.Decl {
 		case "json":
